@@ -396,7 +396,7 @@ OpStep(e) ==
       exp ==
         CASE e.op = "drop" -> pre
           [] e.op = "clone" -> pre
-          [] e.op = "clone_from" -> IF tb[u].mask = 0 THEN Singleton(hd.es) ELSE NoIds(tb[u])
+          [] e.op = "clone_from" -> NoIds(CloneFrom(pre, tb[u], 0).t)
           [] e.op \in {"get_many_mut", "get_many_kv_mut"} ->
                [pre EXCEPT !.data = [i \in 0..pre.mask |-> IF pre.data[i] \in A /\ pre.data[i] \notin absr.A
                                                           THEN CHOOSE y \in absr.A : y[1] = pre.data[i][1] ELSE pre.data[i]]]
@@ -411,7 +411,7 @@ OpStep(e) ==
           [] OTHER -> MapOp(e, pre, ph, LawfulEnv).t
       strictOK == allocStrict /\ (e.op = "try_reserve" /\ e.n \in {-4, -5} => e.r[1] = TryClass(e.n, e.j, hd.es)) /\
         CASE e.op = "drop" -> TRUE
-          [] e.op = "clone" -> NoIds(obsT[u]) = NoIds(pre) /\ obsT[t] = pre
+          [] e.op = "clone" -> NoIds(obsT[u]) = NoIds(CloneTable(pre, 0).t) /\ obsT[t] = pre
           [] e.op = "clone_from" -> NoIds(obsT[t]) = exp
           [] e.op = "iter" -> obsT[t] = pre /\ IterStrict(e)
           [] e.op \in OpForms \cup {"par_extend", "serde_roundtrip", "serde_de", "serde_de_in_place"} -> TRUE    \* (chunking of the collected input is schedule-dependent)
@@ -483,7 +483,7 @@ FaultStep(e) ==
       \* clone_from whose element Clone panics: the inner guard drops the clones made so far, the outer guard leaves the
       \* target empty with the SOURCE's bucket count (clear_no_drop after the reallocation); clone(): the target is untouched
       cloneStrict == (e.pn = "clone" /\ e.op = "clone_from" /\ t \in live /\ u >= 1 /\ u <= Len(tb) /\ tb[u].mask # 0)
-                       => obsT[t] = NewTable(tb[u].mask + 1, hd.es)
+                       => obsT[t] = CloneFrom(pre, tb[u], 1).t
       strictOK == (strictKnown => (expR.st = "unwound" /\ (t \in live => expR.t = obsT[t]))) /\ cloneStrict
   IN /\ IF mine # {} THEN Fail(l, {b[1] : b \in mine}) ELSE TRUE
      /\ IF bad # {} /\ mine = {} THEN TLCSet(46, TLCGet(46) + 1) /\ (IF TLCGet(47) = <<>> THEN TLCSet(47, <<l, e.op, {b[1] : b \in bad}>>) ELSE TRUE) ELSE TRUE
